@@ -183,6 +183,10 @@ func runRPCScript(c *Case, w rpcWeights, trackMeta bool) *rpcRun {
 				// first/last and removal from the middle are exercised
 				opts := matchOpts(hotMatch)
 				opts["invoke"] = hotInvoke
+				if chance(r, 40) {
+					// the registration keeps the flag of its first registrant; later members may lack the feature
+					opts["forward_timeout"] = true
+				}
 				exec(model.Op{Kind: model.OpRegister, P: p, Req: g.nextReq(p), URI: hotURI, Opts: opts})
 				continue
 			}
